@@ -3851,23 +3851,24 @@ def _fix_duplicate_from_imports(source: str) -> str:
             if any(alias.name == "*" for alias in node.names):
                 # A starred import cannot be combined with named ones
                 continue
-            module_import_aliases[node.module].update(
+            # (from . import x and from .. import x are imports from different modules)
+            module_import_aliases[(node.level, node.module)].update(
                 (alias.name, alias.asname if alias.asname != alias.name else None)
                 for alias in node.names
             )
-            module_import_nodes[node.module].append(node)
+            module_import_nodes[(node.level, node.module)].append(node)
 
-        for module, import_nodes in module_import_nodes.items():
+        for (level, module), import_nodes in module_import_nodes.items():
             if len(import_nodes) > 1:
                 replacements[import_nodes[0]] = ast.ImportFrom(
                     module=module,
                     names=[
                         ast.alias(name=name, asname=asname)
                         for name, asname in sorted(
-                            module_import_aliases[module],
+                            module_import_aliases[(level, module)],
                             key=lambda t: (t[0], t[1] is not None, t[1]),
                     )],
-                    level=import_nodes[0].level,
+                    level=level,
                 )
                 removals.update(import_nodes[1:])
 
